@@ -2045,6 +2045,9 @@ class QuantifiedConditional(LogicalBinaryOperator, ABC):
             )
             if not v.value._should_be_instantiated_
             and v.id_ not in quantified_inside
+            # a literal is no variable: a result that an and_ / or_ decided before the comparison with the literal was
+            # reached has no binding for it, which must not make it another binding of the other variables
+            and not isinstance(v.value, Literal)
         ]
 
     def _bindings_of_the_other_variables_(
